@@ -32,7 +32,8 @@ std::vector<VariablePtr>::iterator AnalyserExternalVariable::AnalyserExternalVar
                                                                                                           const std::string &variableName)
 {
     return std::find_if(mDependencies.begin(), mDependencies.end(), [=](const auto &v) {
-        return (owningModel(v) == model)
+        return (owningComponent(v) != nullptr)
+               && (owningModel(v) == model)
                && (owningComponent(v)->name() == componentName)
                && (v->name() == variableName);
     });
